@@ -293,9 +293,7 @@ class Ctx:
             raise Broken("model driver answered %d lines for %d ops" % (len(out), len(lines)))
         return out
 
-    def impl(self, exe, lines, timeout=1800, env=None):
-        """run a line-protocol harness; a sanitizer abort / crash yields the lines answered so far
-        and a final marker line."""
+    def _impl_once(self, exe, lines, timeout, env):
         e = dict(os.environ, ASAN_OPTIONS="detect_leaks=0:abort_on_error=0", UBSAN_OPTIONS="print_stacktrace=1")
         if env:
             e.update(env)
@@ -309,6 +307,30 @@ class Ctx:
             return out.splitlines(), "timeout", ""
         status = "ok" if r.returncode == 0 else "crash(%d)" % r.returncode
         return r.stdout.splitlines(), status, r.stderr[-3000:]
+
+    def impl(self, exe, lines, timeout=1800, env=None, max_restarts=40):
+        """run a line-protocol harness.  When it dies (sanitizer report, signal, timeout) the op that got
+        no answer is answered `<crash …>` / `<timeout>` and the harness is restarted on the remaining ops,
+        so one bad op does not hide the others.  Returns (answers, status, stderr of the first death)."""
+        out, first_status, first_err = [], "ok", ""
+        rest = list(lines)
+        restarts = 0
+        while rest:
+            o, st, err = self._impl_once(exe, rest, timeout, env)
+            o = o[:len(rest)]
+            out += o
+            if st == "ok" and len(o) == len(rest):
+                break
+            if first_status == "ok":
+                first_status, first_err = (st if st != "ok" else "short-output"), err
+            if restarts >= max_restarts or len(o) >= len(rest):
+                break
+            why = "timeout" if st == "timeout" else "crash"
+            m = re.search(r"(runtime error: [^\n]*|ERROR: AddressSanitizer: [^\n]*|SEGV[^\n]*)", err)
+            out.append("<%s%s>" % (why, ": " + m.group(1)[:160] if m else ""))
+            rest = rest[len(o) + 1:]
+            restarts += 1
+        return out, first_status, first_err
 
     # ------------------------------------------------------------------ verdicts
     def replay_path(self):
